@@ -35,12 +35,14 @@ import (
 	"github.com/lestrrat-go/jwx/v2/jws"
 	ssi "github.com/nuts-foundation/go-did"
 	"github.com/nuts-foundation/go-did/did"
+	"github.com/nats-io/nats.go"
 	"github.com/nuts-foundation/go-stoabs"
 	stoabsbbolt "github.com/nuts-foundation/go-stoabs/bbolt"
 	"github.com/nuts-foundation/nuts-node/audit"
 	"github.com/nuts-foundation/nuts-node/core"
 	nutsCrypto "github.com/nuts-foundation/nuts-node/crypto"
 	"github.com/nuts-foundation/nuts-node/crypto/hash"
+	"github.com/nuts-foundation/nuts-node/events"
 	"github.com/nuts-foundation/nuts-node/network"
 	"github.com/nuts-foundation/nuts-node/network/dag"
 	"github.com/nuts-foundation/nuts-node/storage"
@@ -595,6 +597,7 @@ type vNode struct {
 	amb      *ambassador
 	verifier dag.Verifier
 	noVerify bool
+	abandoned bool
 	keyRes   dag.SourceTXKeyResolver
 	res      Resolver
 	notified int
@@ -621,6 +624,9 @@ func vNewNode(t *testing.T, ctrl *gomock.Controller, path string) *vNode {
 }
 
 func (n *vNode) close() {
+	if n.abandoned {
+		return
+	}
 	n.db.Close(context.Background())
 	os.Remove(n.path)
 }
@@ -1849,16 +1855,54 @@ type vOp struct {
 	Doc    *vNDoc     `json:"doc,omitempty"` // nil = payload does not unmarshal
 	Raw    *vPair     `json:"raw,omitempty"`
 	CB       *bool    `json:"cb,omitempty"`       // pair: straight into the callback (no verifier at this moment)
+	Is       []int    `json:"is,omitempty"`       // reprocess: indexes of the deliveries that are replayed
 	Verified bool     `json:"verified,omitempty"` // pair: the DAG signature verifier has admitted this transaction (now or earlier)
 }
 
 type vRunner struct {
+	natsConn *nats.Conn         // embedded NATS (events.NewTestManager), started once: REPROCESS messages must be ack-able
+	natsSub  *nats.Subscription
 	t     *testing.T
 	ctrl  *gomock.Controller
 	out   string
 	opsW  *bufio.Writer
 	implW *bufio.Writer
 	dbN   int
+}
+
+const vReprocessSubject = "verif.c09.reprocess"
+
+// one REPROCESS.application/did+json message as Network.Reprocess publishes it, received over real NATS (so that Ack works)
+func (r *vRunner) reprocessMsg(p *vPair) *nats.Msg {
+	if r.natsConn == nil {
+		em := events.NewTestManager(r.t)
+		ec, _, err := em.Pool().Acquire(context.Background())
+		if err != nil {
+			r.t.Fatal(err)
+		}
+		conn, ok := ec.(*nats.Conn)
+		if !ok {
+			r.t.Fatalf("events connection is a %T, not a *nats.Conn", ec)
+		}
+		sub, err := conn.SubscribeSync(vReprocessSubject)
+		if err != nil {
+			r.t.Fatal(err)
+		}
+		r.natsConn, r.natsSub = conn, sub
+	}
+	data, err := json.Marshal(events.TransactionWithPayload{Transaction: p.tx.Transaction, Payload: p.payload})
+	if err != nil {
+		r.t.Fatal(err)
+	}
+	if err := r.natsConn.PublishRequest(vReprocessSubject, vReprocessSubject+".ack", data); err != nil {
+		r.t.Fatal(err)
+	}
+	_ = r.natsConn.Flush()
+	msg, err := r.natsSub.NextMsg(5 * time.Second)
+	if err != nil {
+		r.t.Fatal(err)
+	}
+	return msg
 }
 
 func (r *vRunner) newNode() *vNode {
@@ -1959,6 +2003,7 @@ func (r *vRunner) runHistory(h int, label string, noVerify bool, pairs []*vPair,
 	prevCheap := n.observeCheap()
 	fmt.Fprintf(r.implW, "hist %d %s\n", h, prevObs)
 	var classes []string
+	var onDAG []int // deliveries that reached the ambassador (the DAG holds their transactions, accepted by the VDR or not)
 	admitted := map[int]string{}
 	for i, p := range pairs {
 		// delayed-VDR schedule: transactions whose DAG admission happens now (store state of this moment)
@@ -1999,6 +2044,9 @@ func (r *vRunner) runHistory(h int, label string, noVerify bool, pairs []*vPair,
 		}
 		prevCheap = cheap
 		classes = append(classes, class)
+		if !strings.HasPrefix(class, "err:sig:") && !p.ZeroTime && !p.EmptyHash {
+			onDAG = append(onDAG, i)
+		}
 		view := vTxViewOf(p.tx, p.Signer)
 		verified := !noVerify || p.Delayed
 		emitOp(vOp{Op: "pair", H: h, I: i, Tx: &view, Doc: vParsePayload(p.payload), Raw: p, CB: &cbOnly, Verified: verified})
@@ -2023,6 +2071,47 @@ func (r *vRunner) runHistory(h int, label string, noVerify bool, pairs []*vPair,
 		}
 		fmt.Fprintf(r.implW, "pair %d.%d %s [%s%s] %s\n", h, i, class, inert, note, shown)
 		prevObs = obs
+	}
+	// REPROCESS of application/did+json: every such transaction on the DAG goes through handleReprocessEvent again, in order
+	if len(onDAG) > 0 {
+		before := n.dbDigest()
+		panics := 0
+		panicAt := ""
+		for _, i := range onDAG {
+			msg := r.reprocessMsg(pairs[i])
+			func() {
+				defer func() {
+					if rec := recover(); rec != nil {
+						panics++
+						panicAt = fmt.Sprintf("%d:%s", i, pairs[i].Kind)
+					}
+				}()
+				n.amb.handleReprocessEvent(msg)
+			}()
+			if panics > 0 {
+				break
+			}
+		}
+		emitOp(vOp{Op: "reprocess", H: h, Is: onDAG})
+		if panics > 0 {
+			// a panic below store.Add leaves the database write lock held: the node is abandoned, nothing more is read from it
+			n.abandoned = true
+			fmt.Fprintf(r.implW, "reprocess %d [PANICS at %s] =\n", h, panicAt)
+			return classes
+		}
+		after := n.dbDigest()
+		inert, shown := "db-same", "="
+		if before != after {
+			inert = "db-changed"
+			if obs := n.observe(ps); obs != prevObs {
+				shown = obs
+			}
+		}
+		note := ""
+		if panics > 0 {
+			note = fmt.Sprintf(" PANICS=%d", panics)
+		}
+		fmt.Fprintf(r.implW, "reprocess %d [%s%s] %s\n", h, inert, note, shown)
 	}
 	return classes
 }
